@@ -283,6 +283,29 @@ def blackbox_part(ck, quick):
         if not any("error" in l for l in per_err): ck.violation("C18:harness:fiber-limit-file-did-not-fail", dict(stderr=list(per_err)))
     else:
         ck.violation("C18:harness:scan-order-probe-failed", dict(output=order_out[-500:]))
+    # an external variable named like a built-in module (`-d time=5`) next to imported modules: a worker's scanner must start every file with fresh module state
+    # (files of equal size and different content: a digest or a parsed header left over from the previous file would be reported for the next one)
+    md_ = os.path.join(WORK, "moddir"); os.makedirs(md_)
+    import hashlib
+    conts = [b"record-%02d-padding" % i for i in range(10)] + [yv.blob("ELF32_FILE"), yv.blob("PE32_FILE")]
+    for i, c_ in enumerate(conts): open(os.path.join(md_, "m%02d" % i), "wb").write(c_)
+    r6 = os.path.join(WORK, "mod.yar")
+    open(r6, "w").write('import "hash" import "elf" import "pe" import "math"\n'
+                        'rule known { condition: time == 5 and hash.md5(0, filesize) == "%s" }\n' % hashlib.md5(conts[3]).hexdigest() +
+                        'rule sha { condition: hash.sha256(0, filesize) == "%s" }\n' % hashlib.sha256(conts[7]).hexdigest() +
+                        'rule iself { condition: time == 5 and elf.type == elf.ET_EXEC }\nrule ispe { condition: pe.number_of_sections > 0 }\nrule ent { condition: time == 5 and math.entropy(0, filesize) > 3.0 }\n')
+    mfiles = sorted(os.path.join(md_, f) for f in os.listdir(md_))
+    for dargs in (["-d", "time=5"], ["-d", "time=5", "-d", "tests=1"]):
+        per = collections.Counter()
+        for fp in mfiles:
+            _, o_, _ = run([bins["yara"]] + dargs + [r6, fp]); n += 1
+            per.update(l for l in o_.split("\n") if l)
+        for p_ in (1, 2, 4):
+            rc_, o_, e_ = run([bins["yara"], "-p", str(p_)] + dargs + [r6, md_]); n += 1
+            got = collections.Counter(l for l in o_.split("\n") if l)
+            if got != per:
+                ck.violation("C18:blackbox:external-named-like-a-module:directory-vs-per-file", dict(defines=dargs, threads=p_, only_directory=sorted((got - per).elements())[:6], only_per_file=sorted((per - got).elements())[:6], stderr=e_[-300:]))
+        if len(per) < 4: ck.violation("C18:harness:module-probe-rules-do-not-match", dict(lines=sorted(per.elements())))
     # a rule set wider than one 64-bit word of the scanner's per-rule bitmaps: every worker reuses its scanner for all the files it takes from the queue
     wd = os.path.join(WORK, "widedir"); os.makedirs(wd)
     for i in range(12):
